@@ -10,8 +10,11 @@ import (
 	"encoding/hex"
 	"encoding/json"
 	"fmt"
+	"os"
 	"runtime/debug"
 	"strings"
+	"sync/atomic"
+	"time"
 
 	"github.com/aquilax/hranoprovod-cli/cmd/hranoprovod-cli/v3/hrapp"
 	"github.com/aquilax/hranoprovod-cli/v3/verifsim"
@@ -36,6 +39,28 @@ type Result struct {
 }
 
 var execCount int
+
+// runningSince is the wall-clock start (unix nanoseconds) of the piece of the program under test that
+// is executing right now, 0 when none is; the worker's watchdog goroutine reads it.
+var runningSince atomic.Int64
+
+func enterSUT() { runningSince.Store(time.Now().UnixNano()) }
+func leaveSUT() { runningSince.Store(0) }
+
+// startWatchdog ends the process with status 124 when one execution of the code under test has been
+// running for longer than limit of real time (three orders of magnitude above the normal 0.5 ms):
+// that is the hang monitor. check attributes the death to the case in the worker's last-case file.
+func startWatchdog(limit time.Duration) {
+	go func() {
+		for {
+			time.Sleep(250 * time.Millisecond)
+			if t := runningSince.Load(); t != 0 && time.Since(time.Unix(0, t)) > limit {
+				fmt.Fprintf(os.Stderr, "hrsim: WATCHDOG: the code under test has not returned for %v - hang\n", limit)
+				os.Exit(124)
+			}
+		}
+	}()
+}
 
 // Exec runs the real application (hrapp.GetApp, the unmodified constructor of
 // package main compiled under another package name) on world w.
@@ -64,6 +89,8 @@ func Exec(w World) (res *Result) {
 		res.Stats = st.Stats
 		res.Events = st.Events
 	}()
+	enterSUT()
+	defer leaveSUT()
 	app := hrapp.GetApp()
 	app.Writer = verifsim.Stdout()
 	app.ErrWriter = &stderr
